@@ -81,7 +81,9 @@ CLAIMS['C20'] = dict(
     text='pareto_front kernel: with symbolic coordinates (finite or NaN) and both orientations z3 shows on every feasible path that a point is flagged '
          'dominated iff another point is strictly better in every coordinate where both are non-missing, that complete data leave a non-dominated '
          'point, and that reversing the orientation equals negating the data.',
-    note='Bounds: up to 3x2 / 4x1 points x dims quick, 4x2, 3x3, 5x1 thorough. standard_normal, box-plot and violin statistics are outside (pandas / '
+    note='Bounds: up to 3x2 / 4x1 points x dims quick, 4x2, 3x3, 5x1 thorough. Engine B adds ppos, lhs, boxplot_stats (percentile calls checked, numpy.nanpercentile a stub) and '
+         'standard_normal on 2-3 (4) symbolic values with ties (ranks = average ranks, scores = ppf of their plotting positions, order of scores = order of data; pandas '
+         'rank and norm.ppf are validated stubs). Grouped box plots and violin statistics are outside (pandas / '
          'numpy percentile / KDE internals).',
     technique=TECH_A, engine='llir', ref='DESIGN.md section 3, C20')
 
@@ -144,7 +146,9 @@ CLAIMS['C04'] = dict(
     note='Bounds: length 2-3 (4 thorough), Identity and Log (thorough + BoxCox2, Reciprocal, Sinh), one concrete NaN position with excludenull. np.corrcoef = its '
          'formula; spearmanr is a stub whose arguments are checked; confusion_matrix (pandas crosstab) is outside. corr also with 2-member ensembles '
          '(statistic of the TRANSFORMED members), fully symbolic and on a 2-dimensional slice; MCC with its sign. kge under Log can come back solver-unknown '
-         '(counted as inconclusive).',
+         '(counted as inconclusive). binary(): the table is held in int64 as in the code and every integer +,-,* carries the obligation that it does not wrap (counts up '
+         'to 1e6 per cell). np.log of a non-positive argument is NaN as in numpy: with excludenull a pair made incomplete BY THE TRANSFORM is dropped (Log / BoxCox2 cases '
+         'with one out-of-domain value).',
     technique=TECH_B, engine='pysym', ref='DESIGN.md section 3, C04')
 
 CLAIMS['C05'] = dict(
